@@ -376,6 +376,17 @@ func init() {
 			RefreshDeadline: t0.Add(time.Hour), LifetimeDeadline: t0.Add(24 * time.Hour), ValidDeadline: t0.Add(time.Minute),
 			Email: "a@example.com", User: "a", Groups: []string{"g1", "g2"}, AuthorizedUpstream: "app.example.com"}, Full: true, Seed: 2})
 		emit(aeadCase{Kind: "session", Sess: &sessions.SessionState{}, Full: true, Seed: 3})
+		// sessions of every size a directory can produce: a long group list compresses to a cookie-sized value, and what was
+		// sealed opens again whatever it inflates to
+		for _, n := range []int{40, 55, 60, 80, 120, 400, 2000} {
+			gs := make([]string, n)
+			for i := range gs {
+				gs[i] = fmt.Sprintf("team-%03d-engineering@corp.example.com", i)
+			}
+			emit(aeadCase{Kind: "session", Sess: &sessions.SessionState{ProviderSlug: "idp", AccessToken: strings.Repeat("eyJhbGciOiJSUzI1NiJ9.", 40), RefreshToken: "rt",
+				RefreshDeadline: t0.Add(time.Hour), LifetimeDeadline: t0.Add(24 * time.Hour), ValidDeadline: t0.Add(time.Minute),
+				Email: "a@example.com", User: "a", Groups: gs, AuthorizedUpstream: "app.example.com"}, Full: false, Seed: int64(100 + n)})
+		}
 		emit(aeadCase{Kind: "state", State: &aeadState{}, Full: false, Seed: 4})
 		strs := []string{"", "a", "ünïcödé", "\x00\xff", strings.Repeat("x", 300), "<script>", "a@b.c", "\"quoted\"", "日本語"}
 		for k := 0; k < n; k++ {
@@ -398,6 +409,12 @@ func init() {
 				}
 				if rng.Intn(4) == 0 {
 					s.GracePeriodStart = t0
+				}
+				if rng.Intn(12) == 0 {
+					// a user in very many groups
+					for i, n := 0, 50+rng.Intn(300); i < n; i++ {
+						s.Groups = append(s.Groups, fmt.Sprintf("g-%d-%s@corp.example.com", i, strs[rng.Intn(3)]))
+					}
 				}
 				// json cannot carry invalid UTF-8 losslessly: keep those strings out of the round-trip fields
 				for _, f := range []*string{&s.ProviderSlug, &s.AccessToken, &s.RefreshToken, &s.Email, &s.User, &s.AuthorizedUpstream} {
